@@ -30,6 +30,9 @@ CHECKS = {
     "C07": ("CrossHair/z3: symbolic schema versions through the real MetadorMeta.query/_get_raw + TOCSchemas.versions/children + PluginRef.supports against a brute-force specification; plus bounded container action sequences (C06 harness) with a reference model of attached metadata (equality of returned objects, parent views, one per schema, exact queries)",
             "trusted: stand-in node/TOCSchemas for the kernel; substrate for sequences; bounds: versions in {0,1}^2 per ref, sequences of 2 actions on both drivers",
             "4/C07, 9"),
+    "C20": ("CrossHair/z3 exploration of bounded container action sequences (C06 harness) with the self-description oracle: embedded JSON Schema / parent chain / provider == plugin system, every stored object validates against the embedded schema, same after reopen",
+            "trusted: as C06; partial: only the installed schemas core.file <- core.imagefile and core.dir; pydantic schema generation and jsonschema validation are third party",
+            "9"),
     "C08": ("CrossHair/z3 symbolic execution of the real MetadorGroup wrapper methods (path guard on every protocol method, enumerated at run time), listing filters and meta-path algebra with structured symbolic reserved paths/names around a recording raw group",
             "trusted: CrossHair/z3 string theory; recording raw mocks; clause (d) (bookkeeping never disturbs user data) is outside (C06); bounds: free parts of paths <=2 chars, 2 symbolic children per listing, canonical paths <=5 chars",
             "4/C08"),
@@ -58,7 +61,6 @@ NA = {
     "C12": "serialisation round trips run inside compiled pydantic / C json / YAML / pint / isodate; symbolic values are realised at those boundaries, leaving only sampling",
     "C13": "quantifies over type objects and third-party validator/subtype semantics (pydantic, runtype); no symbolic-input dimension in repo code",
     "C17": "byte fidelity lives in numpy/h5py/hashlib/libmagic (C, I/O) and cannot be encoded; the repo-side DEL-marker rule is exercised inside C01",
-    "C20": "JSON-Schema generation/validation and plugin metadata are third-party code over concrete objects; the bookkeeping part shares C06's fate",
 }
 
 
